@@ -60,6 +60,21 @@ Theorem C16_skip_token_leaves_tree : forall cfg f st st', iskip f cfg st = inr s
 Proof. exact iskip_node_untouched. Qed.
 
 (* non-vacuity: a look-ahead that accepts, with the real call ending at the same place *)
+(* KNOWN FINDING F16: the first clause read across contexts is false of the faithful model and of the code.  Inside an
+   item whose content column is 11 the line "      # b" has indentation -5; asked in look-ahead mode whether it ends
+   the paragraph, the heading rule says a heading starts there; the item and the list end, and the real parse of the
+   line happens at top level, where it is indented by 6 columns: an indented code block, not a heading.  (The theorem
+   above is about the same state; the real call is made in another one.)  Same output on the implementation. *)
+Example C16_lookahead_across_contexts_refuted :
+  html_of "C" "123456789. a
+      # b" = bs "<ol start=""123456789"">
+<li>a</li>
+</ol>
+<pre><code>  # b
+</code></pre>
+".
+Proof. vm_compute. reflexivity. Qed.
+
 Example C16_nonvacuous :
   let st := IState (bs "[a](u) x") [(0, SAbs 0)] (mk KRoot None []) 0 8 [] 0 0 [] [] in
   let cfg := ICfg [I_TEXT; I_LINK] 100 true [] [] in
